@@ -393,7 +393,7 @@ def check_callbacks(case, issued, cb_log, cmp):
 
 
 RUN_TIMEOUT_S = 120
-BUDGET = {"quick": (12000, 80), "thorough": (300000, 900)}
+BUDGET = {"quick": (20000, 80), "thorough": (300000, 1200)}
 REAL = ["pydcop.infrastructure.discovery (Discovery, Directory, DirectoryComputation, "
         "DiscoveryComputation)", "Agent", "Messaging", "InProcessCommunicationLayer"]
 STUB = ["threading/queue/time primitives (threadsim)", "control computation (harness) to run ops "
